@@ -166,7 +166,8 @@ class SiteInfoHistoryBase(abc.ABC):
             return self.history[last_date_period]
         
         for (date_from, date_to), site_info in self.history.items():
-            if date_from <= date < date_to:
+            # An end of datetime.max is the open end: the last representable instant is inside it
+            if date_from <= date and (date < date_to or date_to == datetime.max):
                 return site_info
 
     @property
